@@ -30,8 +30,9 @@ rng = np.random.default_rng(7)
 y = (np.sin(np.arange(36) / 5) * 3000 + 4000 + rng.normal(0, 200, 36)).round()
 y[[3, 17]] = -3000
 def call():
+    import importlib
     from hdc.algo import ops
-    from hdc.algo.ops import stats, zonal, autocorr as ac
+    stats, zonal, ac = (importlib.import_module("hdc.algo.ops." + m) for m in ("stats", "zonal", "autocorr"))
     sr = np.arange(-2, 2.2, 0.5)
     if name == "ws2dgu": return ops.ws2dgu(y, 10.0, -3000.0).tolist()
     if name == "ws2dpgu": return ops.ws2dpgu(y, 10.0, -3000.0, 0.9).tolist()
